@@ -381,7 +381,17 @@ func C01(c *core.Ctx) error {
 					batch = append(batch, cs)
 				}
 			}
-			fails = genExplore(c, g, batch, "", nil, &budget)
+			// generated in chunks of at most 450 interfaces (one output file per chunk)
+			for lo := 0; lo < len(batch); lo += 450 {
+				hi := lo + 450
+				if hi > len(batch) {
+					hi = len(batch)
+				}
+				b := 30
+				for n, sgn := range genExplore(c, g, batch[lo:hi], "", nil, &b) {
+					fails[n] = sgn
+				}
+			}
 			if g.dataName == "" {
 				for _, q := range [][]shapes.Case{quarantine, poison} {
 					b2 := 3
